@@ -43,7 +43,7 @@ type C17Case struct {
 	Unrelated    int   `json:"unrelated"` // revisions of somebody else
 	Pods         int   `json:"pods"`
 	Claims       int   `json:"claims"`
-	PreExists    int   `json:"pre_exists"` // 0 no Advanced object, 1 one with the same spec, 2 one with a different spec
+	PreExists    int   `json:"pre_exists"` // 0 no Advanced object, 1 one with the same spec, 2 one with a different spec, 3 one whose spec has additional keys and optional fields
 	Replicas     int32 `json:"replicas"`
 	Partition    int32 `json:"partition"`
 	Positions    []int `json:"positions"`
@@ -64,7 +64,7 @@ func genC17(rt *rapid.T) C17Case {
 		Unrelated: rapid.IntRange(0, 2).Draw(rt, "unrelated"),
 		Pods:      rapid.IntRange(0, 3).Draw(rt, "pods"),
 		Claims:    rapid.IntRange(0, 2).Draw(rt, "claims"),
-		PreExists: rapid.SampledFrom([]int{0, 0, 1, 2}).Draw(rt, "preExists"),
+		PreExists: rapid.SampledFrom([]int{0, 0, 1, 2, 3}).Draw(rt, "preExists"),
 		Replicas:  int32(rapid.IntRange(0, 3).Draw(rt, "replicas")),
 		Partition: int32(rapid.IntRange(0, 2).Draw(rt, "partition")),
 		All:       thorough(),
@@ -212,6 +212,22 @@ func buildC17(cs C17Case) *c17World {
 			r := int32(9)
 			pre.Spec.Replicas = &r
 			pre.Spec.ServiceName = "old"
+		}
+		if cs.PreExists == 3 {
+			// a spec with MORE in it than the built-in one has: map keys and optional fields that "same spec" has to remove
+			t := &pre.Spec.Template
+			if t.Annotations == nil {
+				t.Annotations = map[string]string{}
+			}
+			t.Annotations["left-over"] = "yes"
+			t.Spec.NodeSelector = map[string]string{"disk": "ssd"}
+			t.Spec.PriorityClassName = "old-priority"
+			part := int32(2)
+			pre.Spec.UpdateStrategy = asv1.StatefulSetUpdateStrategy{Type: asv1.RollingUpdateStatefulSetStrategyType, RollingUpdate: &asv1.RollingUpdateStatefulSetStrategy{Partition: &part}}
+			if pre.Spec.Selector != nil && pre.Spec.Selector.MatchLabels != nil {
+				pre.Spec.Selector.MatchLabels["era"] = "old"
+				t.Labels["era"] = "old"
+			}
 		}
 		c.Put(pre)
 	}
